@@ -200,7 +200,47 @@ func concRunJob(ws map[int]*concWorld, j *concJob, fail func(sig, what string)) 
 	} else {
 		concConstruct(j, units, msg, k, p, (j.G+j.Round)%total, fail)
 	}
+	concTree(j, fail)
 	return units
+}
+
+// concTreeLeaves: the leaves of the goroutine's own tree of this round (2 … 49 leaves, distinct content).
+func concTreeLeaves(j *concJob) [][]byte {
+	n := 2 + (j.G*7+j.Round*5)%48
+	leaves := make([][]byte, n)
+	for i := range leaves {
+		leaves[i] = []byte(fmt.Sprintf("tree-%d-%d-%d", j.G, j.Round, i))
+	}
+	return leaves
+}
+
+// concTree: a Merkle tree of its own per round, every proof verified with the real Verify while the
+// other goroutines hash theirs (many node hashes in flight: a shared node / leaf buffer mixes them);
+// root and proofs against the harness' own tree.
+func concTree(j *concJob, fail func(sig, what string)) {
+	leaves := concTreeLeaves(j)
+	root, tree := merkle.New(leaves)
+	if len(tree) != len(leaves) {
+		fail("concurrent-merkle-tree-wrong", fmt.Sprintf("merkle.New over %d leaves returns %d proofs", len(leaves), len(tree)))
+		return
+	}
+	for i := range tree {
+		if !tree[i].Verify(&root, leaves[i], uint32(i)) {
+			fail("concurrent-merkle-tree-wrong", fmt.Sprintf("merkle.New over %d leaves of this goroutine, then Verify of its proof %d against its root: false", len(leaves), i))
+			return
+		}
+	}
+	want := refSubtree(leaves, 0, 1<<uint(refDepth(len(leaves))))
+	if hash(root) != want {
+		fail("concurrent-merkle-tree-wrong", fmt.Sprintf("merkle.New over %d leaves of this goroutine: root %x, the protocol's tree has %x", len(leaves), root[:6], want[:6]))
+		return
+	}
+	for i := range tree {
+		if !refVerify(toHashes(tree[i].Siblings), want, leaves[i], uint32(i)) {
+			fail("concurrent-merkle-tree-wrong", fmt.Sprintf("merkle.New over %d leaves of this goroutine: proof %d does not verify under the protocol's hashes", len(leaves), i))
+			return
+		}
+	}
 }
 
 // concConstruct: k units (a window that moves with the round: shard 0 is missing most of the time).
@@ -702,7 +742,7 @@ func concOnceMeasure(h *hctx) {
 
 // secConcurrent: both levels (quick and thorough), plus the race twins (thorough).
 func secConcurrent(h *hctx, r *lib.RNG) {
-	par := concParams{Goroutines: h.f.Scale(8, 16), Rounds: h.f.Scale(300, 1500), Seed: r.Uint64() >> 8}
+	par := concParams{Goroutines: h.f.Scale(8, 16), Rounds: h.f.Scale(500, 1500), Seed: r.Uint64() >> 8}
 	concLibCase(h, par)
 	if !h.pcfg.ProcWired || !(h.cfg.ShardingLeafProto == h.cfg.ValidatorLeafProto && h.cfg.NonceSet) {
 		return // reported by secProcessor
